@@ -1669,3 +1669,193 @@ class SoloTrace:
 
     def hook(self, context):
         self.trace.append({'tick': context[1]} if isinstance(context, tuple) else wire(dict(context)))
+
+
+# ---------------------------------------------------------------------------------------------
+# stream `loads`: the real loaders observed after a history in this process and alone in a pristine process
+# ---------------------------------------------------------------------------------------------
+
+def typed(o, depth=0):
+    """Deep snapshot that keeps the CLASS of every node and the yaml tag of tagged nodes (a `False` is not a
+    `'no'`, an OctalInt 493 not an int 755, a CommentedSet not a list): what "deep-equal to what its loader
+    produced" compares when the loader itself is under test."""
+    t = type(o).__name__
+    if depth > 60:
+        return ['too-deep']
+    if o is None:
+        return None
+    if isinstance(o, bool):
+        return [t, bool(o)]
+    if isinstance(o, int):
+        return [t, int(o)]
+    if isinstance(o, float):
+        return [t, repr(float(o))]
+    if isinstance(o, str):
+        return [t, str(o)]
+    if isinstance(o, (bytes, bytearray)):
+        return [t, bytes(o).hex()]
+    if isinstance(o, (datetime.date, datetime.time, datetime.timedelta)):
+        return [t, str(o)]
+    tag = getattr(o, '_yaml_tag', None)
+    tag = None if tag is None else str(tag)
+    if isinstance(o, cabc.Mapping):
+        return {'T': t, 'tag': tag, 'd': [[typed(k, depth + 1), typed(v, depth + 1)] for k, v in o.items()]}
+    if isinstance(o, (list, tuple)):
+        return {'T': t, 'tag': tag, 'l': [typed(x, depth + 1) for x in o]}
+    if isinstance(o, cabc.Set):
+        return {'T': t, 's': sorted((typed(x, depth + 1) for x in o), key=canon)}
+    if hasattr(o, 'value'):
+        return {'T': t, 'tag': None if getattr(o, 'tag', None) is None else str(getattr(o, 'tag')),
+                'value': typed(getattr(o, 'value'), depth + 1)}
+    return {'T': f'{type(o).__module__}.{t}'}
+
+
+def load_probe(spec, root=''):
+    """ONE observation of the real loaders - the same code in the harness process (after a history) and in the
+    pristine process. spec = {'do': 'get' | 'direct' | 'run', 'loader': 'file' | 'string', 'name': …, 'parent': …}:
+    get = through the loader cache as a run or a pype does; direct = the loader function past every cache;
+    run = pipelinerunner.run with a fixed initial context."""
+    from pypyr.cache.loadercache import loader_cache
+    lname = 'pypyr.loaders.string' if spec['loader'] == 'string' else None
+    try:
+        if spec['do'] == 'get':
+            parent = Path(spec['parent']) if spec.get('parent') else None
+            d = loader_cache.get_pype_loader(lname).get_pipeline(name=spec['name'], parent=parent)
+            return {'def': typed(d.pipeline)}
+        if spec['do'] == 'direct':
+            if lname:
+                from pypyr.loaders.string import get_pipeline_definition
+                d = get_pipeline_definition(spec['name'], None)
+            else:
+                from pypyr.loaders.file import load_pipeline_from_file
+                d = load_pipeline_from_file(Path(spec['name'] + '.yaml'))
+            return {'def': typed(d.pipeline)}
+        import pypyr.pipelinerunner as pr
+        ctx = pr.run(spec['name'], dict_in={'seen': ['start']}, loader=lname)
+        return {'outcome': 'ok', 'final': typed(dict(ctx))}
+    except RecursionError:
+        return {'err': 'RecursionError'}
+    except Exception as e:      # noqa: BLE001 - the outcome of the load / the run
+        return {'err': common.exc_name(e), 'msg': ' '.join(str(e).replace(root, '<dir>').split())[:240] if root else
+                ' '.join(str(e).split())[:240]}
+
+
+def _forked(fn, timeout):
+    """fn() in a forked child of this (pristine) process; its JSON result."""
+    import os
+    import select
+    import signal
+    import time
+    r, w = os.pipe()
+    pid = os.fork()
+    if pid == 0:
+        code = 0
+        try:
+            os.close(r)
+            data = json.dumps(fn()).encode()
+            while data:
+                n = os.write(w, data)
+                data = data[n:]
+        except BaseException:      # noqa: BLE001
+            code = 3
+        finally:
+            os._exit(code)
+    os.close(w)
+    buf, deadline, timed_out = b'', time.time() + timeout, False
+    while True:
+        left = deadline - time.time()
+        rd = select.select([r], [], [], left)[0] if left > 0 else []
+        if not rd:
+            timed_out = True
+            break
+        b = os.read(r, 1 << 16)
+        if not b:
+            break
+        buf += b
+    os.close(r)
+    if timed_out:
+        try:
+            os.kill(pid, signal.SIGKILL)
+        except OSError:
+            pass
+    os.waitpid(pid, 0)
+    if timed_out:
+        return {'timeout': timeout}
+    try:
+        return json.loads(buf.decode())
+    except Exception:      # noqa: BLE001
+        return {'crashed': 'the process died without a result'}
+
+
+def pristine_main():
+    """`python -m harness.impl_c12`: a process that has imported the tree under test and in which NOTHING has been
+    loaded or run. One JSON request per line: {"jobs": [[spec, …], …], "root": dir} -> for every job a forked child
+    that performs the job's specs in order and returns their observations (the parent stays pristine)."""
+    common.use_repo()
+    import pypyr.pipelinerunner     # noqa: F401
+    import pypyr.loaders.file       # noqa: F401
+    import pypyr.loaders.string     # noqa: F401
+    import pypyr.cache.loadercache  # noqa: F401
+    logging.disable(logging.CRITICAL)
+    sys.stdout.write(json.dumps({'ready': True}) + '\n')
+    sys.stdout.flush()
+    for line in sys.stdin:
+        line = line.strip()
+        if not line:
+            continue
+        try:
+            req = json.loads(line)
+            out = [_forked(lambda job=job: [load_probe(s, req.get('root', '')) for s in job], req.get('timeout', 20))
+                   for job in req['jobs']]
+        except Exception as e:      # noqa: BLE001
+            out = {'helper-error': f'{type(e).__name__}: {e}'}
+        sys.stdout.write(json.dumps(out) + '\n')
+        sys.stdout.flush()
+
+
+class Pristine:
+    """Client side: one pristine helper process per harness process."""
+
+    def __init__(self):
+        import subprocess
+        self.p = subprocess.Popen([sys.executable, '-m', 'harness.impl_c12'], cwd=str(common.VERIF),
+                                  stdin=subprocess.PIPE, stdout=subprocess.PIPE, text=True, bufsize=1)
+        first = self.p.stdout.readline()
+        if not first or 'ready' not in first:
+            raise common.Infra('C12 pristine-process helper did not start: ' + repr(first))
+
+    def jobs(self, jobs, root, timeout=20):
+        import select
+        try:
+            self.p.stdin.write(json.dumps({'jobs': jobs, 'root': root, 'timeout': timeout}) + '\n')
+            self.p.stdin.flush()
+            rd, _, _ = select.select([self.p.stdout], [], [], timeout * (len(jobs) + 1) + 20)
+            if not rd:
+                raise common.Infra('C12 pristine-process helper does not answer')
+            line = self.p.stdout.readline()
+            if not line:
+                raise common.Infra('C12 pristine-process helper closed the stream')
+            out = json.loads(line)
+        except BaseException:
+            self.close(kill=True)
+            raise
+        if isinstance(out, dict):
+            raise common.Infra('C12 pristine-process helper: ' + str(out.get('helper-error')))
+        return out
+
+    def close(self, kill=False):
+        p, self.p = self.p, None
+        if p is None:
+            return
+        try:
+            if kill:
+                p.kill()
+            else:
+                p.stdin.close()
+            p.wait(timeout=5)
+        except Exception:      # noqa: BLE001
+            p.kill()
+
+
+if __name__ == '__main__':
+    pristine_main()
